@@ -8,7 +8,7 @@
      (Vec index, DenseMatrix Index<usize>, StripedScores Index<usize>) with their
      panics explicit;
    - the part of PyO3 / CPython the code relies on (trusted, modelled): extraction
-     of an isize argument (OverflowError outside the ssize_t range), what a
+     of an isize argument (fails outside the ssize_t range), what a
      memoryview does with a Py_buffer (default shape/strides of a 1-D buffer,
      element [i][j] read at buf + i*strides[0] + j*strides[1]);
    - memory: the backing store of a matrix object is `ravel st` of a dense storage
@@ -23,7 +23,7 @@ Import ListNotations.
 
 (* ---------- Python exceptions (Err codes) ---------- *)
 Definition EIndex : nat := 1.      (* IndexError *)
-Definition EOverflow : nat := 2.   (* OverflowError raised by PyO3's isize extraction *)
+Definition EOverflow : nat := 2.   (* OverflowError (what PyO3's isize extraction raises; no longer reaches Python) *)
 Definition EType : nat := 3.       (* TypeError: the class has no such slot *)
 Definition EBuffer : nat := 4.     (* BufferError *)
 
@@ -32,8 +32,10 @@ Definition ssize_min : Z := (-9223372036854775808)%Z.
 Definition ssize_max : Z := 9223372036854775807%Z.
 Definition in_ssize (i : Z) : bool := (ssize_min <=? i)%Z && (i <=? ssize_max)%Z.
 
-(* PyO3: <isize as FromPyObject>::extract (PyLong_AsSsize_t semantics) *)
-Definition extract_isize (i : Z) : res Z := if in_ssize i then Ok i else Err EOverflow.
+(* lib.rs extract_index (since the fix of F33): <isize as FromPyObject>::extract
+   (PyLong_AsSsize_t semantics) with its OverflowError mapped to IndexError — like `list`,
+   an integer that does not fit a C ssize_t is out of range *)
+Definition extract_isize (i : Z) : res Z := if in_ssize i then Ok i else Err EIndex.
 
 (* `a += b` on isize, overflow checks on (debug profile) *)
 Definition isize_add (a b : Z) : res Z :=
